@@ -1261,7 +1261,7 @@ pub fn judge_help(d: &Decl, hc: &HelpCase, rows: &[String]) -> Vec<(&'static str
 
 /// type `line`, move the cursor `left` characters back, press Tab; returns the line afterwards and
 /// whether the terminal agrees with it (row, column)
-fn tab_through_cli<T: Autocomplete + Help>(line: &str, left: usize, cap: usize) -> (String, (bool, String, usize)) {
+pub fn tab_through_cli<T: Autocomplete + Help>(line: &str, left: usize, cap: usize) -> (String, (bool, String, usize)) {
     let mut cmd = vec![0u8; cap].into_boxed_slice();
     let mut hist = vec![0u8; 0].into_boxed_slice();
     let sink = MonSink::new();
